@@ -351,6 +351,7 @@ def run(cx):
     cx.consulted(pm)
     cx.explanation = (
         "the list helper templates are instantiated, parsed by clang and evaluated with C semantics and a tracked heap (new[]/delete[], bounds, use after free, double free, leaks, pointer arithmetic) on every list of <= 4 elements over two values and a grid of ranges, against Python's list semantics; ownership discipline (rule of three, delete-before-overwrite, no aliasing stores) on the typed AST; the parser's copy policy on scripts plus an ownership simulation of the loop IR; the static length model on prologues with run-time values. Absence of out-of-bounds accesses for all programs and heap constancy across passes are not decided."
+        " Since round 10 whole scripts are also taken through parse() and emit() (partial evaluation), the emitted translation unit is parsed by clang and interpreted by the checker's C evaluator on a scripted board (never compiled to code or run); the number of live heap buffers after setup() and after each loop() pass must stay constant for the list scripts of the corpus."
     )
     from .. import e2e
     e2e.rule_heap(cx, "C09-E2E", (pm, pm.func("parse")))
